@@ -1577,6 +1577,12 @@ impl OpsWorld {
         let ring = self.ring.take();
         talloc::track(|| drop(ring));
         self.absorb_kernel_log();
+        // C05 at the last Ring::poll there is (the Ring's own final drain): everything the kernel
+        // published, or holds back only because the completion queue was full, is handed over.
+        let (ready, overflown) = simk::with(|k| (k.rings[0].cq_ready(), k.rings[0].overflow.len()));
+        if ready != 0 || overflown != 0 {
+            self.report("C05", "cq-not-drained/ring-drop", format!("the Ring was dropped with {ready} published and {overflown} overflown completion(s) never handed to their operations"));
+        }
         if !self.violations.is_empty() {
             return self.bail();
         }
